@@ -121,6 +121,7 @@ def install():
             raise RuntimeError(f"{name} imported before the symx hook was installed")
     sys.meta_path.insert(0, _Finder())
     sys.dont_write_bytecode = True
+    rt.install_pandas_patches()
     _installed = True
 
 
